@@ -167,6 +167,20 @@ CHECKS = {
         design_ref="DESIGN.md 5 C07, 2.4", category="model_checking",
         note="Exhaustive only up to the preemption bound and the per-scenario schedule budget on the real code (the model is "
              "unbounded); same-host POSIX semantics; no NFS."),
+    "C16": dict(
+        engine="tlc-design+tlc-generate",
+        technique="TLA+ spec StoreViews (views = data directories over shared blobs; chdir and fresh-process steps; directory "
+                  "spelling deliberately not part of the state) model-checked by TLC; generated behaviours replayed under every "
+                  "directory spelling x cache_objects setting on real directories and processes",
+        text="TLC checks on the full state graph that a load answers what the same view last kept (ConfigRoundTrip), that a key "
+             "present in the shared blobs is never recomputed through another view (SharedBlobsNoRecompute) and that a view's "
+             "paths only change through that view (ViewsIndependent). All behaviours of length 3 and simulated ones of length 9 "
+             "are replayed with the directories spelled absolute / relative / './x/../x' / with trailing separators / nested and "
+             "not yet existing / below a symbolic link, cache_objects in {None, False, True, 0, -1, 2}, real os.chdir and real "
+             "fresh processes: any differing answer, exception, or recomputation the spec does not predict is a violation.",
+        design_ref="DESIGN.md 5 C16", category="model_checking",
+        note="A relative configuration is interpreted in the working directory at configuration time. Trusted: TLC, the client "
+             "driver's projection of answers."),
     "C08": dict(
         engine="tlc-design+tlc-generate+tlc-trace",
         technique="TLA+ spec StoreModel (dictionary store with path identity = segment sequence) model-checked by TLC over its "
